@@ -219,9 +219,7 @@ fn check_action(spec: &Spec, a: &Action) -> Result<(), String> {
                     if matches!(a, Action::Do(_)) {
                         return Err("Err outcome in infallible rule".into());
                     }
-                    if o.reset {
-                        return Err("reset + Err is not generated".into());
-                    }
+
                 }
             }
             Ok(())
